@@ -105,6 +105,59 @@ def handle (op : String) (args : List String) (impl : Option (List String)) : St
     | _, _ => ("BADOP", none)
   | _, _ => ("BADOP", none)
 
+/-! ### file-based ops -/
+
+def readFile (path : String) : IO Bytes := do
+  let ba ← IO.FS.readBinFile path
+  return ba.toList
+
+def optInt (s : String) : Option (Option Int) :=
+  if s == "-" then some none else s.toInt?.map some
+
+def stageStr : Pin.Stage → String
+  | .optType => "ERR opt_type" | .optDigest => "ERR opt_digest" | .optLen => "ERR opt_len"
+  | .vlead => "ERR vlead" | .lead => "ERR lead" | .header => "ERR header" | .done => "OK"
+
+def hdrRes (r : Res Format.Hdr) : String :=
+  match r with
+  | .ok h => "OK " ++ PredHdr.report h
+  | .err => "ERR"
+  | .oob _ => "OOB"
+
+def handleIO (op : String) (args : List String) (impl : Option (List String)) : IO (String × Option Bool) := do
+  match op, args with
+  | "OPEN", [path, t, d, n, order, vl] =>
+    let f ← readFile path
+    match optInt t, optInt n, (if d == "-" then some none else if d == "e" then some (some []) else (parseHex d).map some) with
+    | some t, some n, some d =>
+      let typeFirst := order == "td"
+      let st := Pin.openSeq Sha.zckHash f t d n typeFirst (vl == "1")
+      let pv := impl.map fun i =>
+        let opened := i == ["OK"]
+        PredHdr.c06_ok Sha.zckHash f opened && PredHdr.c07_ok Sha.zckHash f t d n typeFirst opened
+      return (stageStr st, pv)
+    | _, _, _ => return ("BADOP", none)
+  | "OPENM", [path, pos, v] =>
+    let f ← readFile path
+    match pos.toNat?, parseHex v with
+    | some pos, some [b] =>
+      let g := f.set pos b
+      let m := Header.openFile Sha.zckHash g
+      let out := match m with | .ok _ => "OK" | .err => "ERR" | .oob _ => "OOB"
+      let pv := impl.map fun i => PredHdr.c06_ok Sha.zckHash g (i == ["OK"])
+      return (out, pv)
+    | _, _ => return ("BADOP", none)
+  | "META", [path] =>
+    let f ← readFile path
+    let m := Header.openFile Sha.zckHash f
+    let pv := impl.map fun i =>
+      match i with
+      | "OK" :: rest => PredHdr.c13_ok Sha.zckHash f (some (" ".intercalate rest))
+      | ["ERR"] => PredHdr.c13_ok Sha.zckHash f none
+      | _ => false
+    return (hdrRes m, pv)
+  | _, _ => return handle op args impl
+
 partial def loop (hin : IO.FS.Stream) (hout : IO.FS.Stream) : IO Unit := do
   let line ← hin.getLine
   if line.isEmpty then return ()
@@ -112,7 +165,7 @@ partial def loop (hin : IO.FS.Stream) (hout : IO.FS.Stream) : IO Unit := do
   match toks with
   | id :: op :: rest =>
     let (args, impl) := splitImpl rest
-    let (out, p) := handle op args impl
+    let (out, p) ← handleIO op args impl
     hout.putStrLn s!"{id} {out} ||| {propStr p}"
   | _ => pure ()
   loop hin hout
